@@ -3,10 +3,19 @@ from checks import wire_checks
 
 LEVEL = "proof"
 MANIFEST = dict(
-    text="Generic Lean theorems over chains of any depth (serialize is total and size-exact; no layer overwrites another) reduce C02 to a per-layer obligation WritesOnly, proved for the modelled layers; the guarded serialize monitor hook reports cross-layer overwrites in the implementation for every class.",
-    note="Proof covers the Lean models of the classes listed in the evidence (modelled_classes) and the generic backbone; "
-         "the tie is differential correspondence under sanitizers; unmodelled classes get the implementation-side oracle only. "
-         "Trusted: Lean kernel + standard axioms, hand-written models, harness, generators, translator/gen_tags.py.",
+    text="Lean 4: generic theorems over chains of any depth (serialize total and size-exact; the bytes of every sub-chain appear unmodified at "
+         "their offset) reduce C02 to one per-class obligation (size function = bytes written, for every option list reachable by parsing or "
+         "through the API), proved for all seven families and assembled into the unconditional theorems parsed_packet_serializes / "
+         "parsed_packet_layers_never_overwrite (every accepted packet without PPI/PKTAP) and built_packet_* (every stack of objects satisfying "
+         "the invariants the constructors establish and the API calls preserve). The guarded serialize monitor hook reports cross-layer "
+         "overwrites in the implementation for every class; serialize() is run twice on the same object.",
+    note="The theorems are about hand-written, code-shaped Lean models of 53 entry classes in seven families (link layers, IPv4 + options / AH / ESP, "
+         "IPv6 + extension headers, TCP + options / UDP, ICMP / ICMPv6 + extensions, DHCP / DHCPv6 / BootP / RTP / VXLAN / ARP / STP, 802.11 / "
+         "RadioTap / EAPOL; list in the evidence: modelled_classes); the tie to the C++ is differential correspondence of every line under "
+         "ASan/UBSan/LSan plus the Lean spec oracle evaluated on the implementation's own output; DNS as an entry class and the paths "
+         "the model cannot express (host routing table in IP::prepare_for_serialize, EAPOL null result) get the implementation-side oracle "
+         "only (evidence: unmodelled_lines). Trusted: Lean kernel + propext/Classical.choice/Quot.sound, the models, harness, generators, "
+         "translator/gen_tags.py; allocator / lifetime behaviour is observed by the sanitizers, not proved.",
     technique="Lean 4 proof over executable byte-level models + model/impl correspondence + spec oracle on impl output",
     design="DESIGN.md §6 C02")
 
